@@ -52,6 +52,12 @@ class UnixSocketSession(Session):
 
     def close(self):
         self._closing.set()
+        try:
+            # wake the session thread if it sleeps in recv(): closing the
+            # descriptor alone does not end a recv() in progress on it
+            self._socket.shutdown(socket.SHUT_RDWR)
+        except (OSError, ValueError):
+            pass
         self._socket.close()
         self._connected = False
         # Wait for the session thread to finish: no listener is called once
